@@ -40,7 +40,9 @@ def from_json(sch, t, j, enum_names=False):
             if f["name"] not in j:
                 raise ValueError("missing key %s" % f["name"])
             out[f["name"]] = from_json(sch, f["type"], j[f["name"]], enum_names)
-        extra = set(j) - {f["name"] for f in sch.structs[t[1]]} - {"__is_method_input"}
+        # (the synthesized rpc wrappers <X>Input carry a "__is_method_input" marker; they are not judged, and
+        # a declared struct never has keys beyond its fields)
+        extra = set(j) - {f["name"] for f in sch.structs[t[1]]}
         if extra:
             raise ValueError("unexpected keys %s" % sorted(extra))
         return out
@@ -74,6 +76,10 @@ def from_json(sch, t, j, enum_names=False):
     raise ValueError(t)
 
 
+WARMUP_TEXT = 'version: "3"\nstruct Plain { a @0: u8, b @1: i16, }\nimpl can for Plain { id: 3, bus: "w", }\n'
+_first_batch_of_process = True
+
+
 class Batch:
     """One generated + compiled schema batch."""
 
@@ -94,6 +100,19 @@ class Batch:
             run.violation("front end rejected a well-formed schema: %r" % (res.err(),), self.case)
             return
         self.fcp = res.unwrap()
+        global _first_batch_of_process
+        if _first_batch_of_process and run.shard % 2 == 0:
+            # in every other worker process the FIRST thing the C++ generator ever sees is a small schema
+            # without services, enums or containers (whatever a generator keeps per process is then
+            # initialised by a schema that needs less than the batches do)
+            try:
+                cpp.generate(CC.parse(WARMUP_TEXT).unwrap(), os.path.join(self.dir, "warmup"))
+                shutil.rmtree(os.path.join(self.dir, "warmup"), ignore_errors=True)
+                run.count("processes_warmed_up_with_a_plain_schema")
+            except Exception as e:
+                run.violation("C++ generation raised %s: %s" % (type(e).__name__, e), {"schema": WARMUP_TEXT})
+                return
+        _first_batch_of_process = False
         try:
             tree = CC.parse(self.text).unwrap()
             self.files = cpp.generate(tree, self.dir)
